@@ -94,7 +94,6 @@ func liveSlots(s Step) [][]string {
 	return r
 }
 
-
 func init() {
 	// D6/D19: hosts in the IDNA zone under the strict (STD3) profile with the ASCII/misc fall-back. The
 	// serialized host has an ACE label and either that label encodes U+2260/226E/226F or another
@@ -174,7 +173,7 @@ func init() {
 			famHist(c, defaultCfg, 12000*c.Scale, 6, "s", false, allButVerrs, "setters", eachState)
 			famEdgeHist(c, defaultCfg, allButVerrs, "edge-pairs", false, eachState)
 		},
-		rule: "parse results (WPT + generated inputs, with and without base) and every state of generated setter histories (1-6 of the nine setters, values from component generators); for each state Parse(Href(false)) must succeed and reproduce all 19 observables; distinct = distinct (start, op list); non-trivial = start parsed and at least one setter applied, or parse got past the scheme state",
+		rule:   "parse results (WPT + generated inputs, with and without base) and every state of generated setter histories (1-6 of the nine setters, values from component generators); for each state Parse(Href(false)) must succeed and reproduce all 19 observables; distinct = distinct (start, op list); non-trivial = start parsed and at least one setter applied, or parse got past the scheme state",
 		assume: []string{"the two states in which the standard's own algorithms do not round-trip (file URL with first segment X|, file URL with host localhost; both reachable only through the protocol setter) are recognised by shape, accepted only when the extracted Spec's setter steps reach the very same state on the same history, and there the re-parse must differ from the state in exactly that normalisation and nothing else"},
 	}
 
@@ -298,6 +297,13 @@ func init() {
 			famEdgeHist(c, defaultCfg, allButVerrs, "edge-pairs+sp", true, func(d *Driver, hc histCase, h *implHist, steps []Step, start Obs) {
 				c12Replay(c, hc)
 			})
+			// under the diagnostics options a setter may stop at a validation error: URL and list must agree then too
+			for _, n := range []string{"fail", "report", "fail+report", "singlePct+lax"} {
+				cfg := cfgFromDesc(n)
+				famHist(c, cfg, 4000*c.Scale, 8, "ppqqqss", false, allButVerrs, "sp+setsearch+setters:"+n, func(d *Driver, hc histCase, h *implHist, steps []Step, start Obs) {
+					c12Replay(c, hc)
+				})
+			}
 		},
 		rule: "generated interleavings of SearchParams mutations (through a handle obtained once and kept), SetSearch and other setters; after each step the post-condition of the property is evaluated on the implementation and all observables are compared with the model",
 	}
@@ -514,15 +520,15 @@ func idnaStrictZone(host string) bool {
 
 // edge values per setter (index = setter): values chosen at the boundaries of the setter algorithms
 var edgeValues = [9][]string{
-	{"file", "http", "https", "sc", "ws:", "", "FILE:", "a b"},                                   // protocol
-	{"", "u", "a:b@"},                                                                           // username
-	{"", "p", "é"},                                                                              // password
+	{"file", "http", "https", "sc", "ws:", "", "FILE:", "a b"}, // protocol
+	{"", "u", "a:b@"}, // username
+	{"", "p", "é"},    // password
 	{"", "h", "h:81", "[::1]", "1.2.3.4", "localhost", "x:", "é.b", "h:80", "0x7f.1", "a/b", ":9"}, // host
-	{"", "h", "localhost", "[::1]", "x:1", "a b"},                                               // hostname
-	{"", "0", "80", "443", "8080", "65536", "x", "8x"},                                          // port
-	{"", "/", "a", "//x", "/.//x", "C|", "/C|/..", "..", " ", "/a/../b", "\\x", "?", "#"},       // pathname
-	{"", "?", "q", "?a=b", "#", "a b", "%ff=1&😀=1", "a=%41&a=2"},                                // search
-	{"", "#", "f", " ", "#a b", "?"},                                                            // hash
+	{"", "h", "localhost", "[::1]", "x:1", "a b"},                                                  // hostname
+	{"", "0", "80", "443", "8080", "65536", "x", "8x"},                                             // port
+	{"", "/", "a", "//x", "/.//x", "C|", "/C|/..", "..", " ", "/a/../b", "\\x", "?", "#"},          // pathname
+	{"", "?", "q", "?a=b", "#", "a b", "%ff=1&😀=1", "a=%41&a=2"},                                   // search
+	{"", "#", "f", " ", "#a b", "?"},                                                               // hash
 }
 
 var edgeStarts = []string{
